@@ -10,7 +10,7 @@ class Contract:
     def __init__(self, qualname, params=None, self_ty=None, ret=None, requires=(), ensures=None,
                  raises=None, where=None, loops=None, comps=None, pure=True, assumed=False,
                  properties=(), note="", ret_fields=None, enum_params=None, ghost=None, fn_params=None,
-                 raises_only=False, any_raises=False, locals=None, uses=(), captured=None, ret_py=None, abstractions=None, traced=False, on_raise=None, enum_cover=False, ghost_requires=(), alternatives=(), internal=None):
+                 raises_only=False, any_raises=False, locals=None, uses=(), captured=None, ret_py=None, abstractions=None, traced=False, on_raise=None, enum_cover=False, ghost_requires=(), alternatives=(), internal=None, witness=None):
         self.qualname = qualname
         self.params = OrderedDict(params or {})  # name -> type string
         self.self_ty = self_ty
@@ -39,6 +39,8 @@ class Contract:
         self.traced = traced  # calls are recorded in the ghost trace of the caller
         self.on_raise = OrderedDict(on_raise or {})  # clauses that must hold on every exceptional exit
         self.internal = OrderedDict(internal or {})  # postconditions over final locals: proved, but not visible at call sites
+        self.witness = OrderedDict(witness or {})  # name -> (type, expression over the final state): existential witnesses of the ensures;
+        # proved for that term in the body, a fresh constant at call sites
         self.uses = list(uses)  # [(lemma name, {lemma var: expr})]: proved lemmas instantiated as hypotheses at return
         self.locals = locals or {}  # local variable -> type string (for values whose type cannot be inferred)  # callee may raise anything (assumed externals)
 
@@ -87,6 +89,7 @@ class ClassModel:
 
 
 CLASS_MODELS: dict[str, ClassModel] = {}  # sort name -> model
+ATTRS_CLASSES: dict[str, tuple] = {}  # attrs class dotted name -> (sort, fields its __attrs_post_init__ may replace)
 CLASS_OF: dict[str, str] = {}  # python class dotted name -> sort name
 
 
